@@ -354,6 +354,25 @@ class TaintInterp:
                 return Unknown(ast.unparse(node), line)
             return T([[slot("IDENT", ast.unparse(node), kept | set(rep),
                             line)]])
+        if short == "sub" and isinstance(node.func, ast.Attribute) \
+                and fname != "re.sub" and len(args) >= 2:
+            # compiled pattern: NAME = re.compile(P); NAME.sub(rep, x)
+            import re as _re  # noqa: PLC0415
+            from .props.c02 import regex_kept_chars  # noqa: PLC0415
+            try:
+                pat = self.fold(node.func.value)
+                rep = self.fold(args[0])
+            except Exception:  # noqa: BLE001
+                pat = None
+            if isinstance(pat, _re.Pattern) and isinstance(rep, str):
+                try:
+                    kept = regex_kept_chars(pat.pattern)
+                except AnalysisError:
+                    return T([[slot("RAW", f"{ast.unparse(node.func.value)}"
+                                    f" = re.compile({pat.pattern!r}) is not a "
+                                    "single negated class", line=line)]])
+                return T([[slot("IDENT", ast.unparse(node), kept | set(rep),
+                                line)]])
         if short == "int":
             return I()
         if short in ("len", "ord"):
